@@ -1,6 +1,7 @@
 import Driver.Proto
 import PolyVerif.Gen.Transform
 import PolyVerif.Model.AabbFromPoints
+import PolyVerif.Model.C17Mesh
 
 namespace Driver.C17
 open PolyVerif PolyVerif.Gen
@@ -33,6 +34,32 @@ def allClose (tol : Float) (a b : List Float) : Bool :=
   a.length == b.length && (a.zip b).all (fun (x, y) => close tol x y)
 
 def tol : Float := 1e-9
+
+/-- the mesh the harness builds: `NewTriangleMesh([0,1,2, 1,2,3, …]).SetFloat3Attribute(Position, pts)` (and Normal) -/
+def meshOf (pts : List (V3 Float)) (nrm : Option (List (V3 Float))) : C17Mesh.Mesh Float :=
+  let n := pts.length
+  let idx : List Int := (List.range (n - 2)).flatMap fun i => [Int.ofNat i, Int.ofNat (i + 1), Int.ofNat (i + 2)]
+  let v3 := match nrm with
+    | some ns => if ns.isEmpty then [] else [("Normal", ns.toArray)]
+    | none => []
+  { v4Data := [], v3Data := (if pts.isEmpty then [] else [("Position", pts.toArray)]) ++ v3, v2Data := [], v1Data := [],
+    indices := idx.toArray, materials := [], topology := 0 }
+def posOut (r : Option (C17Mesh.Mesh Float)) : String :=
+  match r with
+  | none => "panic"
+  | some m => match m.v3Data.get? "Position" with
+    | some d => fsHex (d.toList.flatMap v3To)
+    | none => ""
+/-- the whole result mesh: Position | Normal | indices | topology | number of v1+v2+v4 attributes -/
+def meshOut (r : Option (C17Mesh.Mesh Float)) : String :=
+  match r with
+  | none => "panic"
+  | some m =>
+    let at3 := fun (k : String) => match m.v3Data.get? k with
+      | some d => fsHex (d.toList.flatMap v3To)
+      | none => "-"
+    at3 "Position" ++ " | " ++ at3 "Normal" ++ " | " ++ " ".intercalate (m.indices.toList.map toString) ++ " | "
+      ++ toString m.topology ++ " " ++ toString (m.v1Data.length + m.v2Data.length + m.v4Data.length)
 
 /-- a float as `nan`, `+inf`, `-inf` or its bit pattern (for answers where the NaN sign / payload is not part of the claim) -/
 def fClass (x : Float) : String :=
@@ -149,15 +176,37 @@ def handle (op : String) (args : List String) : Option String := do
       let a ← v3Of (fs.take 3); let b ← v3Of ((fs.drop 3).take 3); let p ← v3Of (fs.drop 6)
       pure (fsHex (v3To ((geometry.NewLine3D a b).ClosestPointOnLine p)))
   -- mesh level: Mesh.Rotate / Translate / Scale / ApplyTRS must move every position exactly as the point function does
-  | "c17.mesh.rotate" => do
-      let q ← qOf (fs.take 4); pure (fsHex ((v3List (fs.drop 4)).flatMap fun v => v3To (q.Rotate v)))
+  | "c17.mesh.rotate" => do           -- answered by running the literal-loop model of Mesh.Rotate (Model/C17Mesh.lean)
+      let q ← qOf (fs.take 4); pure (posOut (C17Mesh.rotate (meshOf (v3List (fs.drop 4)) none) q))
   | "c17.mesh.translate" => do
-      let t ← v3Of (fs.take 3); pure (fsHex ((v3List (fs.drop 3)).flatMap fun v => v3To (v.Add t)))
+      let t ← v3Of (fs.take 3); pure (posOut (C17Mesh.translate (meshOf (v3List (fs.drop 3)) none) t))
   | "c17.mesh.scale" => do
-      let t ← v3Of (fs.take 3); pure (fsHex ((v3List (fs.drop 3)).flatMap fun v => v3To (v.MultByVector t)))
-  | "c17.trs.array" | "c17.mesh.applytrs" => do
+      let t ← v3Of (fs.take 3); pure (posOut (C17Mesh.scale (meshOf (v3List (fs.drop 3)) none) t))
+  | "c17.mesh.applytrs" => do
       let p ← v3Of (fs.take 3); let r ← qOf ((fs.drop 3).take 4); let s ← v3Of ((fs.drop 7).take 3)
-      pure (fsHex ((v3List (fs.drop 10)).flatMap fun v => v3To ((trs.New p r s).Transform v)))
+      pure (posOut (C17Mesh.applyTRS (meshOf (v3List (fs.drop 10)) none) (trs.New p r s)))
+  | "c17.trs.array" => do
+      let p ← v3Of (fs.take 3); let r ← qOf ((fs.drop 3).take 4); let s ← v3Of ((fs.drop 7).take 3)
+      pure (fsHex ((C17Mesh.transformArray (trs.New p r s) (v3List (fs.drop 10)).toArray).toList.flatMap v3To))
+  | "c17.quat.rotatearray" => do
+      let q ← qOf (fs.take 4)
+      pure (fsHex ((C17Mesh.rotateArray q (v3List (fs.drop 4)).toArray).toList.flatMap v3To))
+  -- meshops on a mesh with Position AND Normal: op(0 rotate q | 1 translate t | 2 scale origin amount) attr(0 Position, 1 Normal,
+  -- 2 an attribute the mesh does not have) params n positions(3n) normals(3n); answer = the WHOLE result mesh (or panic)
+  | "c17.meshop" => do
+      let kind := (fs.getD 0 0).toUInt64.toNat
+      let attr := match (fs.getD 1 0).toUInt64.toNat with | 0 => "Position" | 1 => "Normal" | _ => "Missing"
+      let np := match kind with | 0 => 4 | 1 => 3 | _ => 6
+      let ps := (fs.drop 2).take np
+      let n := ((fs.drop (2 + np)).getD 0 0).toUInt64.toNat
+      let pos := v3List ((fs.drop (3 + np)).take (3 * n))
+      let nrm := v3List ((fs.drop (3 + np + 3 * n)).take (3 * n))
+      let m := meshOf pos (some nrm)
+      let r ← match kind with
+        | 0 => (qOf ps).map (fun q => C17Mesh.rotateAttr m attr q)
+        | 1 => (v3Of ps).map (fun t => C17Mesh.translateAttr m attr t)
+        | _ => do let o ← v3Of (ps.take 3); let a ← v3Of (ps.drop 3); pure (C17Mesh.scaleAttr m attr o a)
+      pure (meshOut r)
   -- mesh / array level oracle: out must be the pointwise image (kind: 0 rotate q, 1 translate t, 2 scale s, 3 TRS p r s)
   | "c17.holds.pointwise" => do        -- args: kind, params (4|3|3|10), n, points (3n), out (3n)
       let kind := (fs.getD 0 0).toUInt64.toNat
